@@ -191,6 +191,7 @@ def stepLineCore (s : St) (toks : List String) : St × String :=
   | ["mark"] => (s, showOptNat s.store)
   | "parrel" :: _ => (s, "ok")   -- concurrent Next vs Release: last request of a case, judged by the Go oracle only
   | ["sibling", _] => (s, "ok")  -- a sibling view of the store is opened and written: invisible to the sequence
+  | "foreign" :: _ => (s, "ok")  -- other users of the store write / delete / delete by prefix / clear / batch / iterate OTHER keys and realms
   | "cfg" :: _ => (s, "ok")      -- harness configuration (key, backend, wrapped not-found errors): invisible
   | [p, g, k] =>
     -- `par`: g×k concurrent Next calls; `parfr`: the same with foreign readers of another key on the same handle
